@@ -55,9 +55,20 @@ def run(repo: Repo, rep: Report, tier: str) -> None:
     rep.check(ok, "ids", fq, "_validate_requested_contexts(contexts) dominates the numbering", "the <= 128 check must precede the numbering, otherwise 2*i+1 exceeds 255", mod=ae, node=fn)
     # nothing rebinds `contexts` to something else between validation and numbering except deepcopy
     rebinds = [s for s in walk_no_nested(fn) if isinstance(s, ast.Assign) and norm(s.targets[0]) == "contexts"]
-    okr = all(norm(s.value) in ("contexts or self.requested_contexts", "deepcopy(contexts)") for s in rebinds)
+    PER_ELEMENT = ("[deepcopy(cx) for cx in contexts]", "[copy.deepcopy(cx) for cx in contexts]", "[deepcopy(c) for c in contexts]", "list(map(deepcopy, contexts))")
+    okr = all(norm(s.value) in ("contexts or self.requested_contexts",) + PER_ELEMENT + ("deepcopy(contexts)",) for s in rebinds)
     if val:
-        okr = okr and all(s.lineno < val[0].line or norm(s.value) == "deepcopy(contexts)" for s in rebinds)
+        okr = okr and all(s.lineno < val[0].line or norm(s.value) in PER_ELEMENT + ("deepcopy(contexts)",) for s in rebinds)
+    # the numbered objects must be pairwise distinct: deepcopy() of the whole list preserves aliasing between
+    # its elements (the same context object passed twice stays one object and is numbered twice)
+    whole = [s for s in rebinds if norm(s.value) in ("deepcopy(contexts)", "copy.deepcopy(contexts)", "copy(contexts)", "list(contexts)", "contexts[:]")]
+    for s_ in whole:
+        rep.fail("ids", fq, s_, "the requested contexts are copied as a whole list: aliasing between elements survives, so the same PresentationContext object used twice in `contexts` is one object numbered twice - duplicate presentation context ids on the wire (copy each element on its own)", mod=ae, node=s_)
+    shallow = [s for s in rebinds if isinstance(s.value, (ast.ListComp, ast.Call)) and any(isinstance(c_, ast.Call) and dotted(c_.func) in ("copy", "copy.copy") for c_ in ast.walk(s.value))]
+    for s_ in shallow:
+        rep.fail("validated", fq, s_, "the requested contexts are copied shallowly: each copy shares its transfer-syntax list with the caller's / the AE's live context, so a change made after validation (remove_requested_context(uid, [ts]) from another thread or an EVT_CONN_OPEN handler, before the DUL thread encodes the request) is sent unvalidated - down to a context with no transfer syntax at all", mod=ae, node=s_)
+    if not whole and not shallow:
+        rep.ok("ids", f"{fq} :: contexts copied per element", "pairwise distinct context objects")
     rep.check(okr, "ids", fq, f"contexts rebound by {[norm(s.value) for s in rebinds]}", "the validated list must be the one numbered and sent (a copy is fine)", mod=ae, node=fn)
     vf = repo.func("ae", "ApplicationEntity._validate_requested_contexts")
     lim = [i for i in walk_no_nested(vf) if isinstance(i, ast.If) and "len(contexts)" in norm(i.test)]
@@ -200,6 +211,35 @@ def run(repo: Repo, rep: Report, tier: str) -> None:
     srcp = [norm(s) for s in walk_no_nested(acp) if isinstance(s, ast.stmt)]
     rep.check("transfer_syntax.transfer_syntax_name = primitive.transfer_syntax[0]" in srcp and "self.transfer_syntax_sub_item = [transfer_syntax]" in srcp and "self.result_reason = primitive.result" in srcp and "self.presentation_context_id = primitive.context_id" in srcp, "ac-results", "pdu_items.PresentationContextItemAC.from_primitive", "id, result and exactly one transfer syntax (the chosen one)", "each result item carries the context id, the result and one transfer syntax", mod=items, node=acp)
 
+    # ---- accepted / rejected is a partition of the negotiation result ---------------------------
+    rep.rule("ac-partition", "every negotiated context lands in exactly one of accepted / rejected: the A-ASSOCIATE-AC answers all of them")
+    na = repo.func("acse", "ACSE._negotiate_as_acceptor")
+    fqn = "acse.ACSE._negotiate_as_acceptor"
+    acc = [s_ for s_ in walk_no_nested(na) if isinstance(s_, ast.Assign) and norm(s_.targets[0]) == "self.assoc._accepted_cx"]
+    rej = [s_ for s_ in walk_no_nested(na) if isinstance(s_, ast.Assign) and norm(s_.targets[0]) == "self.assoc._rejected_cx"]
+    okp = False
+    why = "split not recognised"
+    if len(acc) == 1 and len(rej) == 1 and isinstance(acc[0].value, ast.DictComp) and isinstance(rej[0].value, ast.ListComp):
+        ga, gr = acc[0].value.generators[0], rej[0].value.generators[0]
+        ca = [norm(x) for x in ga.ifs]
+        cr = [norm(x) for x in gr.ifs]
+        same_src = norm(ga.iter) == norm(gr.iter)
+        v = norm(ga.target)
+        okp = same_src and ca == [f"{v}.result == 0"] and cr == [f"{norm(gr.target)}.result != 0"] and norm(rej[0].value.elt) == norm(gr.target)
+        why = f"accepted if {ca}, rejected if {cr}"
+    else:
+        # loop form: for cx in result: if cx.result == 0: accepted[..] = cx  else: rejected.append(cx)
+        for lp_ in [f for f in walk_no_nested(na) if isinstance(f, ast.For)]:
+            ifs_ = [i for i in lp_.body if isinstance(i, ast.If)]
+            touches = any("_accepted_cx" in norm(x) or "_rejected_cx" in norm(x) for x in ast.walk(lp_) if isinstance(x, ast.stmt))
+            if not touches:
+                continue
+            v = norm(lp_.target)
+            if len(ifs_) == 1 and norm(ifs_[0].test) == f"{v}.result == 0":
+                plain_else = bool(ifs_[0].orelse) and not (len(ifs_[0].orelse) == 1 and isinstance(ifs_[0].orelse[0], ast.If))
+                okp = plain_else and any("_rejected_cx.append" in norm(x) for x in ifs_[0].orelse) and any("_accepted_cx[" in norm(x) for x in ifs_[0].body)
+                why = "loop form: " + ("plain else" if plain_else else "the non-accepted branch is conditional (elif): some results fall into neither list")
+    rep.check(okp, "ac-partition", fqn, f"accepted / rejected split: {why}", "a negotiated context that is neither accepted nor rejected (e.g. result 0x01, refused through role selection) gets no result item in the A-ASSOCIATE-AC: PS3.8 requires one result item per proposed context", mod=repo.mod("acse"), node=(rej[0] if rej else na))
     check_validators(repo, rep)
 
 # ---- validator character classes ------------------------------------------------------------
